@@ -246,7 +246,87 @@ class Gen:
             lambda: c.remove_namespace(NS1))
         add("remove_namespace", "valid-or-notfound",
             lambda: c.remove_namespace("root/new%d" % max(1, u - 1)))
+        # an association instance whose copy in the other namespace is missing
+        orphan = CIMInstance("VAssoc", properties=[
+            CIMProperty("left", _ipath("VA", NS1, k=Uint32(2)),
+                        reference_class="VA"),
+            CIMProperty("right", right2, reference_class="VX"),
+            CIMProperty("note", "orphan")],
+            path=CIMInstanceName("VAssoc", keybindings={
+                "left": _ipath("VA", NS1, k=Uint32(2)), "right": right2},
+                namespace=NS1))
+        add("add_cimobjects", "single-assoc-in-one-namespace-only",
+            lambda: c.add_cimobjects(orphan, namespace=NS1))
+        for ap in self.instances_of(NS1, "VAssoc"):
+            refs_ns2 = any(isinstance(v, CIMInstanceName) and
+                           (v.namespace or "").lower() == NS2.lower()
+                           for v in ap.keybindings.values())
+            if refs_ns2:
+                ai = CIMInstance(ap.classname, properties=[
+                    CIMProperty("note", "mm%d" % u)], path=ap.copy())
+                add("ModifyInstance", "assoc-multi-namespace",
+                    lambda ai=ai: c.ModifyInstance(ai))
+                add("DeleteInstance", "assoc-multi-namespace",
+                    lambda ap=ap: c.DeleteInstance(ap.copy()))
+        if "interop" in [n.lower() for n in c.namespaces]:
+            out += self.namespace_provider(u)
         out += self.batches(ns, u)
+        return out
+
+    def namespace_provider(self, u):
+        c = self.conn
+        out = []
+
+        def nsinst(name, drop=()):
+            props = dict(Name=name, CreationClassName="CIM_Namespace",
+                         ObjectManagerName="FakeObjectManager",
+                         ObjectManagerCreationClassName="CIM_ObjectManager",
+                         SystemName="MockSystem_WBEMServerTest",
+                         SystemCreationClassName="CIM_ComputerSystem")
+            return CIMInstance("CIM_Namespace", properties=[
+                CIMProperty(k, v, type="string") for k, v in props.items()
+                if k not in drop])
+
+        def nspath(name):
+            i = nsinst(name)
+            return CIMInstanceName("CIM_Namespace", keybindings={
+                k: p.value for k, p in i.properties.items()},
+                namespace="interop")
+
+        out.append(("CreateInstance", "CIM_Namespace-valid",
+                    lambda: c.CreateInstance(nsinst("root/nsp%d" % u),
+                                             namespace="interop")))
+        out.append(("CreateInstance", "CIM_Namespace-key-missing",
+                    lambda: c.CreateInstance(
+                        nsinst("root/nspk%d" % u, drop=("SystemName",)),
+                        namespace="interop")))
+        out.append(("CreateInstance", "CIM_Namespace-name-missing",
+                    lambda: c.CreateInstance(nsinst("x", drop=("Name",)),
+                                             namespace="interop")))
+        out.append(("CreateInstance", "CIM_Namespace-exists",
+                    lambda: c.CreateInstance(nsinst(NS1),
+                                             namespace="interop")))
+        out.append(("CreateInstance", "CIM_Namespace-wrong-creationclassname",
+                    lambda: c.CreateInstance(CIMInstance(
+                        "CIM_Namespace", properties=[
+                            CIMProperty("Name", "root/nspw%d" % u),
+                            CIMProperty("CreationClassName", "Other")]),
+                        namespace="interop")))
+        out.append(("DeleteInstance", "CIM_Namespace-not-empty",
+                    lambda: c.DeleteInstance(nspath(NS2))))
+        out.append(("DeleteInstance", "CIM_Namespace-interop",
+                    lambda: c.DeleteInstance(nspath("interop"))))
+        out.append(("DeleteInstance", "CIM_Namespace-valid-or-notfound",
+                    lambda: c.DeleteInstance(
+                        nspath("root/nsp%d" % max(1, u - 1)))))
+        out.append(("DeleteInstance", "CIM_Namespace-stale-instance",
+                    lambda: c.DeleteInstance(nspath("root/never"))))
+        out.append(("ModifyInstance", "CIM_Namespace-not-supported",
+                    lambda: c.ModifyInstance(CIMInstance(
+                        "CIM_Namespace", properties=[CIMProperty(
+                            "Caption", "c")], path=nspath(NS1)))))
+        out.append(("remove_namespace", "namespace-with-provider-instance",
+                    lambda: c.remove_namespace("root/nsp%d" % max(1, u - 1))))
         return out
 
     # -- batches -------------------------------------------------------------------
